@@ -1,6 +1,7 @@
 (* C06 property theorems: statements only, each closed by `exact`, with Print Assumptions. *)
 From Coq Require Import ZArith QArith List Bool.
-From QE Require Import Base.Num Base.LinAlg Base.Gauss C06.Model C06.Proofs.
+From Coq Require Import Lia.
+From QE Require Import Base.Num Base.LinAlg Base.Gauss C06.Model C06.Proofs C06.ProofsFull.
 Import ListNotations.
 Local Open Scope Q_scope.
 
@@ -101,13 +102,68 @@ Proof.
   split; [vm_compute; discriminate|split; [discriminate|reflexivity]].
 Qed.
 
-(* general dimension: stated, NOT proved (needs the push-through identities for (I + G Y)^-1);
-   decided by the sampled correspondence + mpmath oracle only *)
-Definition C06_riccati_fixed_point_transfer_full : Prop :=
-  forall ns nc g (A B Q R N X : list (list Q)) k AGH0 Ak Gk Hk Res,
-  ricc_init ns nc g A B Q R N = Some AGH0 ->
+(* --- general dimension: structured doubling preserves the Riccati solution --- *)
+(* "Y solves Y = A'Y(I+GY)^-1 A + H with closed loop S":  (I+GY) S = A  and  Y = A'(Y S) + H *)
+
+(* one doubling step (the model's ricc_step, with its three Gauss-Jordan solves): for symmetric G, H and an
+   explicit two-sided inverse W of I + G H, a solution Y with closed loop S is a solution of the doubled
+   (A1,G1,H1) with closed loop S S, and G1, H1 are symmetric again *)
+Theorem C06_riccati_step_preserves_solution : forall n (A G H A1 G1 H1 W Y S : list (list Q)),
+  msym n G -> msym n H ->
+  (meq n n (mmul n n n W (madd n n (mid n) (mmul n n n G H))) (mid n) /\
+   meq n n (mmul n n n (madd n n (mid n) (mmul n n n G H)) W) (mid n)) ->
+  ricc_step n A G H = Some (A1, G1, H1) ->
+  (meq n n (mmul n n n (madd n n (mid n) (mmul n n n G Y)) S) A /\
+   meq n n Y (madd n n (mmul n n n (mtr n n A) (mmul n n n Y S)) H)) ->
+  (meq n n (mmul n n n (madd n n (mid n) (mmul n n n G1 Y)) (mmul n n n S S)) A1 /\
+   meq n n Y (madd n n (mmul n n n (mtr n n A1) (mmul n n n Y (mmul n n n S S))) H1)) /\
+  msym n G1 /\ msym n H1.
+Proof. exact ricc_step_preserves_solution. Qed.
+Print Assumptions C06_riccati_step_preserves_solution.
+
+(* the whole chain, every dimension ns, nc and every k: if X (symmetric) solves the Riccati equation of
+   (A,B,Q,R,N) with feedback F = (R+B'XB)^-1(N+B'XA), then X - gamma I solves the doubled equation of the
+   k-th iterate (A_k,G_k,H_k) built by the model from (A,B,Q,R,N,gamma), with closed loop (A - BF)^(2^k).
+   Invertibility is hypothesised explicitly: a two-sided inverse of R + gamma B'B and of I + G_i H_i, i < k *)
+Theorem C06_riccati_fixed_point_transfer :
+  forall ns nc (g : Q) (A B Qm R N X F Z : list (list Q)) k AGH0 Ak Gk Hk,
+  msym ns Qm -> msym nc R -> msym ns X ->
+  (meq nc nc (mmul nc nc nc Z (madd nc nc R (mscale nc nc g (mmul nc ns nc (mtr ns nc B) B)))) (mid nc) /\
+   meq nc nc (mmul nc nc nc (madd nc nc R (mscale nc nc g (mmul nc ns nc (mtr ns nc B) B))) Z) (mid nc)) ->
+  meq nc ns (mmul nc nc ns (madd nc nc R (mmul nc ns nc (mmul nc ns ns (mtr ns nc B) X) B)) F)
+            (madd nc ns N (mmul nc ns ns (mmul nc ns ns (mtr ns nc B) X) A)) ->
+  meq ns ns X (madd ns ns (msub ns ns (mmul ns ns ns (mmul ns ns ns (mtr ns ns A) X) A)
+                                (mmul ns nc ns (mtr nc ns (madd nc ns N (mmul nc ns ns (mmul nc ns ns (mtr ns nc B) X) A))) F)) Qm) ->
+  ricc_init ns nc g A B Qm R N = Some AGH0 ->
   ricc_iter k ns AGH0 = Some (Ak, Gk, Hk) ->
-  ricc_residual_mat ns nc A B Q R N X = Some Res -> meq ns ns Res (mzero ns ns) ->
+  (forall i Ai Gi Hi, (i < k)%nat -> ricc_iter i ns AGH0 = Some (Ai, Gi, Hi) ->
+       exists Wi, meq ns ns (mmul ns ns ns Wi (madd ns ns (mid ns) (mmul ns ns ns Gi Hi))) (mid ns) /\
+                  meq ns ns (mmul ns ns ns (madd ns ns (mid ns) (mmul ns ns ns Gi Hi)) Wi) (mid ns)) ->
   let Y := msub ns ns X (mscale ns ns g (mid ns)) in
-  forall W, meq ns ns (mmul ns ns ns (madd ns ns (mid ns) (mmul ns ns ns Gk Y)) W) Ak ->
-  meq ns ns Y (madd ns ns (mmul ns ns ns (mmul ns ns ns (mtr ns ns Ak) Y) W) Hk).
+  let Sk := mpow ns (msub ns ns A (mmul ns nc ns B F)) (2 ^ k) in
+  meq ns ns (mmul ns ns ns (madd ns ns (mid ns) (mmul ns ns ns Gk Y)) Sk) Ak /\
+  meq ns ns Y (madd ns ns (mmul ns ns ns (mtr ns ns Ak) (mmul ns ns ns Y Sk)) Hk).
+Proof. exact riccati_fixed_point_transfer. Qed.
+Print Assumptions C06_riccati_fixed_point_transfer.
+
+(* its hypotheses are satisfiable: a = b = r = 1, q = 1/2, n = 0, gamma = 1/2, X = 1, F = 1/2, k = 1 *)
+Ltac m11 := let i := fresh in let j := fresh in let Hi := fresh in let Hj := fresh in
+  intros i j Hi Hj; assert (i = 0%nat) by lia; assert (j = 0%nat) by lia; subst; vm_compute; reflexivity.
+Example riccati_transfer_example :
+  let Z := [[2#3]] in let X := [[1]] in let F := [[1#2]] in
+  (meq 1 1 (mmul 1 1 1 Z (madd 1 1 [[1]] (mscale 1 1 (1#2) (mmul 1 1 1 (mtr 1 1 [[1]]) [[1]])))) (mid 1) /\
+   meq 1 1 (mmul 1 1 1 (madd 1 1 [[1]] (mscale 1 1 (1#2) (mmul 1 1 1 (mtr 1 1 [[1]]) [[1]]))) Z) (mid 1)) /\
+  meq 1 1 (mmul 1 1 1 (madd 1 1 [[1]] (mmul 1 1 1 (mmul 1 1 1 (mtr 1 1 [[1]]) X) [[1]])) F)
+          (madd 1 1 [[0]] (mmul 1 1 1 (mmul 1 1 1 (mtr 1 1 [[1]]) X) [[1]])) /\
+  meq 1 1 X (madd 1 1 (msub 1 1 (mmul 1 1 1 (mmul 1 1 1 (mtr 1 1 [[1]]) X) [[1]])
+                            (mmul 1 1 1 (mtr 1 1 (madd 1 1 [[0]] (mmul 1 1 1 (mmul 1 1 1 (mtr 1 1 [[1]]) X) [[1]]))) F)) [[1#2]]) /\
+  ricc_init 1 1 (1#2) [[1]] [[1]] [[1#2]] [[1]] [[0]] = Some ([[2#3]], [[2#3]], [[1#3]]) /\
+  ricc_iter 1 1 ([[2#3]], [[2#3]], [[1#3]]) = Some ([[4#11]], [[10#11]], [[5#11]]) /\
+  (meq 1 1 (mmul 1 1 1 [[9#11]] (madd 1 1 (mid 1) (mmul 1 1 1 [[2#3]] [[1#3]]))) (mid 1) /\
+   meq 1 1 (mmul 1 1 1 (madd 1 1 (mid 1) (mmul 1 1 1 [[2#3]] [[1#3]])) [[9#11]]) (mid 1)).
+Proof.
+  cbv zeta. repeat split; try m11; vm_compute; reflexivity.
+Qed.
+
+(* Still NOT proved (sampled correspondence + mpmath oracle only): that the hypothesised inverses exist
+   for stabilisable/detectable data, convergence A_k -> 0, symmetry/PSD/stabilising property of the limit. *)
